@@ -296,3 +296,100 @@ From AV Require Engine.AggParamVocab.
 Theorem c04_param_agg_tie_vocabulary_perm_invariant : forall lits, p_agg_perm_invariant (AggParamVocab.pv_interp lits).
 Proof. exact AggParamExample.pv_perm. Qed.
 Print Assumptions c04_param_agg_tie_vocabulary_perm_invariant.
+
+(* ================= the per-index LATTICE engine (LatEngine/LatIndexed*.v) =================
+   Every physical index of a lattice relation keeps its own content (key -> row numbers; the key index key -> one row number); the head update looks the
+   key up in new / delta / total, joins in place and on a change re-inserts the row number into every index of `new` under the keys of the DERIVED tuple,
+   removing nothing; reads go through the item's own index, rows read at their current value, no re-test.  Under the decidable xplan_ok (no item indexes a
+   lattice column) it refines the view engine, so the lattice theorems transfer; outside it the faithful model REPRODUCES the recorded defect
+   lattice_value_column_index_stale (known class = alat_plan_ok false).  Tied to the real index fields of lattice programs by gen/lat_indexed_tie.py. *)
+From Coq Require Import List ZArith Bool Permutation.
+From AV Require Import Engine.Core Engine.Eval Engine.Validate Engine.Naive Engine.Vocab.
+From AV Require Import Engine.Strat Engine.StratFixed Engine.InterfaceAgg.
+From AV Require Import LatEngine.LatSyntax LatEngine.LatEval LatEngine.LatPlan LatEngine.LatSem LatEngine.LatBase LatEngine.LatKeys.
+From AV Require Import LatEngine.LatMain LatEngine.LatVocab LatEngine.LatExample.
+From AV Require Import LatEngine.LatAggEval LatEngine.LatAggTrans LatEngine.LatAggInv LatEngine.LatAggSem LatEngine.LatAggMain.
+From AV Require Import LatEngine.LatAggExample.
+From AV Require Import LatEngine.LatIndexedEval LatEngine.LatIndexedStore LatEngine.LatIndexedMain LatEngine.LatIndexedFinding.
+Import ListNotations.
+
+Theorem c04_lattice_indexed_refines : forall (V : Type) (I : linterp V), veqb_ok I ->
+  forall (vagg : nat -> list (list V) -> list V) (islat : rel -> bool) (jm : rel -> V -> V -> V * bool)
+         (shuffle : nat -> list nat -> list nat), (forall n l x, In x (shuffle n l) -> In x l) ->
+  forall ashuffle : nat -> list nat -> list nat, (forall n l x, In x (ashuffle n l) -> In x l) ->
+  forall (swap_oracle : nat -> list nat -> list nat -> bool) (arities : list (rel * nat)) (ds : list xdecl) (pl : plan),
+  xplan_ok islat arities ds pl = true -> (forall r, islat r = true -> In r (map fst arities)) ->
+  forall (fuel : nat) (Rin : rel -> list (vtuple V)) (xst : xlstate),
+  rows_len islat arities Rin -> keys_ok islat Rin ->
+  xrun_plan I vagg islat jm shuffle ashuffle swap_oracle (decls_of ds) fuel pl Rin = Some xst ->
+  exists st, arun_plan I vagg islat jm shuffle ashuffle swap_oracle fuel pl Rin = Some st
+             /\ l_rows st = l_rows (xl_s xst) /\ l_tick st = l_tick (xl_s xst)
+             /\ (forall r, islat r = true -> stinv I arities ds (l_rows st) r (xl_ix xst r) (l_stored st r)).
+Proof. exact @lat_indexed_refines. Qed.
+
+Theorem c04_lattice_indexed_stratified_model : forall (V : Type) (I : linterp V), veqb_ok I ->
+  forall vagg : nat -> list (list V) -> list V, (forall a l l', Permutation l l' -> vagg a l = vagg a l') ->
+  forall (islat : rel -> bool) (lle : rel -> V -> V -> Prop) (jm : rel -> V -> V -> V * bool),
+  (forall r, islat r = true -> lat_laws (lle r) (jm r)) ->
+  forall shuffle : nat -> list nat -> list nat, (forall n l x, In x (shuffle n l) <-> In x l) ->
+  forall ashuffle : nat -> list nat -> list nat, (forall n l, Permutation (ashuffle n l) l) ->
+  forall (swap_oracle : nat -> list nat -> list nat -> bool) (arities : list (rel * nat)), arities_functional arities ->
+  forall (P : list rule) (N : var), amonotone_program I islat lle N P ->
+  forall pl : plan, validate arities P pl = true -> alat_plan_ok islat arities pl = true -> plan_below N pl = true ->
+  forall ds : list xdecl, xplan_ok islat arities ds pl = true -> (forall r, islat r = true -> In r (map fst arities)) ->
+  forall (fuel : nat) (Rin : rel -> list (vtuple V)) (xst : xlstate), ainput_ok I islat lle arities Rin ->
+  xrun_plan I vagg islat jm shuffle ashuffle swap_oracle (decls_of ds) fuel pl Rin = Some xst ->
+  stratified (plan_strata P pl) = true
+  /\ (forall r, In r P <-> In r (concat (plan_strata P pl)))
+  /\ strat_lat_model I vagg islat lle (plan_strata P pl) Rin (l_rows (xl_s xst))
+  /\ keys_ok islat (l_rows (xl_s xst)) /\ plain_nodup islat (l_rows (xl_s xst)).
+Proof. exact @lat_indexed_agg_stratified_model. Qed.
+
+Theorem c04_lattice_value_index_stale_refuted : exists st,
+  pr_run = Some st
+  /\ l_rows (xl_s st) 1%nat = [[1; 5]; [2; 3]]%Z
+  /\ l_rows (xl_s st) 3%nat = [[3; 2]; [5; 1]; [7; 0]]%Z
+  /\ l_rows (xl_s st) 4%nat = [[7]]%Z
+  /\ xents (xl_ix st 1%nat) [1%nat] = [([3], [0%nat; 1%nat]); ([5], [0%nat])]%Z
+  /\ ~ count_spec (l_rows (xl_s st) 1%nat) (l_rows (xl_s st) 3%nat).
+Proof. exact lat_value_index_stale_refuted. Qed.
+
+Theorem c04_lattice_value_index_known_class :
+  alat_plan_ok pr_islat pr_arities pr_plan = false
+  /\ xplan_ok pr_islat pr_arities pr_decls pr_plan = false
+  /\ validate pr_arities pr_prog pr_plan = true
+  /\ (forall islat arities ds pl, arities_functional arities -> alat_plan_ok islat arities pl = false -> xplan_ok islat arities ds pl = false).
+Proof. exact lat_value_index_known_class. Qed.
+
+(* non-vacuity *)
+Definition ag_decls : list xdecl :=
+  [(1%nat, [0%nat; 1%nat], true); (1%nat, [0%nat], false); (1%nat, [1%nat], false); (1%nat, [], false); (1%nat, [0%nat; 1%nat; 2%nat], false)].
+
+Lemma ag_dom : forall r, sp_islat r = true -> In r (map fst ag_arities).
+Proof. intros [|[|r]] H; cbn in *; try discriminate; auto. Qed.
+
+Example c04_lattice_indexed_example : exists xst,
+  xplan_ok sp_islat ag_arities ag_decls ag_plan = true
+  /\ xrun_plan lv_interp std_aint sp_islat sp_jm lv_shuffle lv_shuffle lv_swap (decls_of ag_decls) 40 ag_plan ag_input = Some xst
+  /\ l_rows (xl_s xst) 3%nat = [[2; 1]; [0; 3]; [1; 2]]%Z
+  /\ strat_lat_model lv_interp std_aint sp_islat sp_lle (plan_strata ag_prog ag_plan) ag_input (l_rows (xl_s xst))
+  /\ keys_ok sp_islat (l_rows (xl_s xst)).
+Proof.
+  assert (Hok : xplan_ok sp_islat ag_arities ag_decls ag_plan = true) by (vm_compute; reflexivity).
+  destruct (xrun_plan lv_interp std_aint sp_islat sp_jm lv_shuffle lv_shuffle lv_swap (decls_of ag_decls) 40 ag_plan ag_input) as [xst|] eqn:Erun;
+    [|vm_compute in Erun; discriminate].
+  exists xst. split; [exact Hok|]. split; [reflexivity|].
+  assert (H3 : l_rows (xl_s xst) 3%nat = [[2; 1]; [0; 3]; [1; 2]]%Z) by (vm_compute in Erun; injection Erun as <-; reflexivity).
+  split; [exact H3|]. destruct ag_checks as [Hval [Halat Hbelow]].
+  destruct (lat_indexed_agg_stratified_model Z lv_interp sp_eq std_aint ag_agg_perm sp_islat sp_lle sp_jm sp_laws lv_shuffle sp_shuffle_ok
+              lv_shuffle ag_ashuffle_ok lv_swap ag_arities ag_arities_functional ag_prog 5%nat ag_monotone ag_plan Hval Halat Hbelow
+              ag_decls Hok ag_dom 40%nat ag_input xst ag_input_ok Erun) as [_ [_ [Hmodel [Hkeys _]]]].
+  split; [exact Hmodel | exact Hkeys].
+Qed.
+
+Print Assumptions c04_lattice_indexed_refines.
+Print Assumptions c04_lattice_indexed_stratified_model.
+Print Assumptions c04_lattice_value_index_stale_refuted.
+Print Assumptions c04_lattice_value_index_known_class.
+Print Assumptions c04_lattice_indexed_example.
+Print Assumptions ag_dom.
